@@ -90,3 +90,7 @@ func SetFiles(names []string) {}
 
 // FileSet defines a ghost file as a sequence of big-endian 64-bit words, cut at cutBytes bytes.
 func FileSet(name string, words []uint64, cutBytes uint64) {}
+
+// HookCall (engine-only): when the code under test calls the framework function with this full name
+// (which the interpreter would otherwise havoc), run f instead: "the wrapped handler is invoked here".
+func HookCall(fullName string, f func()) {}
